@@ -11,7 +11,7 @@ pub fn replay_canon(rep: &mut Report, rec: &J) {
 	rep.count("canon_vectors");
 	let mut v = build(&rec["v"]).unwrap_or_else(|e| tool_error(&e));
 	let exp_text = cps_to_string(&rec["text"]).unwrap();
-	if let Err(p) = guarded(|| v.canonicalize()) {
+	if let Err(p) = guarded(|| canonicalize_any(&mut v)) {
 		rep.mismatch("C09.panic", json!({"what": "canonicalize panicked", "vector": rec, "panic": p}));
 		return;
 	}
@@ -143,6 +143,25 @@ fn objects_of(v: &Value, out: &mut Vec<J>) {
 			o.iter().for_each(|e| objects_of(&e.value, out))
 		}
 		_ => (),
+	}
+}
+
+thread_local! {
+	/// one formatting buffer shared by every canonicalize_with call on this thread (what a caller canonicalizing many
+	/// documents would do)
+	static BUF: std::cell::RefCell<ryu_js::Buffer> = std::cell::RefCell::new(ryu_js::Buffer::new());
+	static ROUTE: std::cell::Cell<usize> = std::cell::Cell::new(0);
+}
+
+/// canonicalize by one of the public routes, in rotation: Value::canonicalize, Value::canonicalize_with(shared buffer),
+/// and - when the value is an object - Object::canonicalize / Object::canonicalize_with on the object itself
+pub fn canonicalize_any(v: &mut Value) {
+	let r = ROUTE.with(|r| { r.set(r.get() + 1); r.get() });
+	match (r % 4, v) {
+		(1, v) => BUF.with(|b| v.canonicalize_with(&mut b.borrow_mut())),
+		(2, Value::Object(o)) => o.canonicalize(),
+		(3, Value::Object(o)) => BUF.with(|b| o.canonicalize_with(&mut b.borrow_mut())),
+		(_, v) => v.canonicalize(),
 	}
 }
 
@@ -341,7 +360,7 @@ pub fn record(args: &Args) {
 		}
 		numbers += certs.len();
 		let mut c = v.clone();
-		let r = guarded(|| c.canonicalize());
+		let r = guarded(|| canonicalize_any(&mut c));
 		let text = c.compact_print().to_string();
 		let mut c2 = c.clone();
 		c2.canonicalize();
@@ -380,7 +399,7 @@ pub fn record(args: &Args) {
 				numbers_of(&before, &mut sps2);
 				let certs2: Vec<J> = sps2.iter().filter_map(|s| certificate(s)).collect();
 				if certs2.len() == sps2.len() {
-					let r2 = guarded(|| m.canonicalize());
+					let r2 = guarded(|| canonicalize_any(&mut m));
 					let text2 = m.compact_print().to_string();
 					let mut m2 = m.clone();
 					m2.canonicalize();
@@ -400,7 +419,7 @@ pub fn record(args: &Args) {
 			match Value::parse_str(&tb) {
 				Ok((mut b, _)) => {
 					let pb = project(&b);
-					b.canonicalize();
+					canonicalize_any(&mut b);
 					lines.push(json!({"ev": "rewrite", "a": project(&v), "b": pb, "ta": str_to_cps(&text), "tb": str_to_cps(&b.compact_print().to_string()), "btext": tb}));
 				}
 				Err(e) => tool_error(&format!("rewriting does not parse: {e}: {tb}")),
